@@ -75,6 +75,10 @@ func run(c *harness.Ctx, i int) {
 		visibleKill(c)
 		return
 	}
+	if i%20 == 12 {
+		transientShortage(c)
+		return
+	}
 	switch i % 6 {
 	case 0, 1, 2:
 		storeCrash(c, i)
@@ -90,6 +94,85 @@ func run(c *harness.Ctx, i int) {
 }
 
 // ---------------------------------------------------------------------------
+
+// transientShortage: a write that is cut short after some bytes (the file system is full) and the shortage going away a
+// moment later, with retries configured for the store: whatever the writer does about it, the chunk name never holds
+// anything but the complete chunk. The chunks are larger than what is free, so the cut falls inside a chunk; a watcher
+// frees the room (removes a ballast file) as soon as the file system reports no free block.
+func transientShortage(c *harness.Ctx) {
+	rng := c.Rng
+	dir := c.CaseDir()
+	uncompressed := rng.Intn(2) == 0
+	sz := dsu.Sizes{Min: 16 << 10, Avg: 32 << 10, Max: 64 << 10}
+	blob := dsu.MakeBlob(rng, "random", (150+rng.Intn(200))<<10, sz)
+	idx := dsu.RefIndex(blob, sz)
+	store := filepath.Join(dir, "store")
+	os.MkdirAll(store, 0755)
+	file := filepath.Join(dir, "blob")
+	dsu.WriteFile(file, blob)
+	idxFile := filepath.Join(dir, "blob.caibx")
+	dsu.Must(dsu.WriteIndex(idxFile, idx))
+	retries := rng.Intn(4)
+	interval := time.Duration(5+rng.Intn(30)) * time.Millisecond
+	cfgFile := filepath.Join(dir, "config.json")
+	dsu.WriteFile(cfgFile, []byte(fmt.Sprintf(`{"store-options": {%q: {"uncompressed": %v, "error-retry": %d, "error-retry-base-interval": %d}}}`, store, uncompressed, retries, int64(interval))))
+	ballastPages := len(blob)/4096 + 64
+	freePages := 1 + rng.Intn(40)
+	if err := syscall.Mount("tmpfs", store, "tmpfs", 0, fmt.Sprintf("size=%dk", 4*(ballastPages+freePages))); err != nil {
+		c.Skip("cannot mount a tmpfs: %v", err)
+		return
+	}
+	defer syscall.Unmount(store, syscall.MNT_DETACH)
+	ballast := filepath.Join(store, "ballast")
+	dsu.Must(os.WriteFile(ballast, make([]byte, 4096*ballastPages), 0644))
+	c.Info("transient-shortage uncompressed=%v chunks=%d free=%d pages retries=%d interval=%v", uncompressed, len(idx.Chunks), freePages, retries, interval)
+	c.LogInfo()
+	cmd := exec.Command(cliPlain, "--config", cfgFile, "chop", "-n", "1", "-s", store, idxFile, file)
+	cmd.Env = append(os.Environ(), "HOME="+dir)
+	stop := make(chan struct{})
+	full := make(chan bool, 1)
+	go func() {
+		for {
+			select {
+			case <-stop:
+				full <- false
+				return
+			default:
+			}
+			var st syscall.Statfs_t
+			if syscall.Statfs(store, &st) == nil && st.Bfree == 0 {
+				os.Remove(ballast)
+				full <- true
+				return
+			}
+			time.Sleep(200 * time.Microsecond)
+		}
+	}()
+	err := cmd.Run()
+	close(stop)
+	wasFull := <-full
+	os.Remove(ballast)
+	chunks, _, ok := validateStore(c, store, fmt.Sprintf("after a transient shortage (%d pages free, retries=%d)", freePages, retries))
+	c.Count("transient_shortage_runs", 1)
+	c.Count("chunk_files_validated", int64(chunks))
+	if !ok {
+		return
+	}
+	if err == nil {
+		s, _ := desync.NewLocalStore(store, desync.StoreOptions{Uncompressed: uncompressed})
+		for _, ch := range idx.Chunks {
+			if has, _ := s.HasChunk(ch.ID); !has {
+				c.Violation("chop-success-incomplete", "chop exited 0 after a transient shortage but chunk %x is missing", ch.ID[:4])
+				return
+			}
+		}
+	}
+	if wasFull {
+		c.Count("shortages_hit", 1)
+		c.NonTrivial("store|transient-shortage|u%v|r%d|err%v", uncompressed, retries, err != nil)
+	}
+	c.Sample(map[string]interface{}{"leg": "transient-shortage", "uncompressed": uncompressed, "free_pages": freePages, "retries": retries, "fs_was_full": wasFull, "writer_exit": fmt.Sprint(err), "chunk_files": chunks})
+}
 
 // validateStore walks a local store directory after the writer died.
 func validateStore(c *harness.Ctx, dir string, what string) (chunks, temps int, ok bool) {
